@@ -5,6 +5,7 @@ import RapidModel.Minimize
 import RapidProofs.MinimizeExact
 import RapidProofs.PassFix
 import RapidProofs.TranslatedMinEq
+import RapidProofs.TranslatedMinSEq
 
 namespace Rapid.C12
 
@@ -92,5 +93,21 @@ theorem no_element_can_be_dropped (p : Prog) (s s' : SS) (F : Nat) (hF : s.rc.gr
 theorem cache_invariant (p : Prog) {α : Type} (sc : Script α) (rc : Rec) (err : Option Err) (s' : SS) (a : α)
     (h : sc.run p { rc := rc, err := err } = .ok (a, s')) : CacheOK p s' :=
   run_cacheOK p sc _ s' a (cacheOK_init p rc err) h
+
+/-! ### `minimize` as the shrinker uses it: with a callback that calls `accept` -/
+
+/-- **`minimize(u, cond)` of /repo (with `rShift`, `unsetBits`, `sortBits`, `binSearch` and `minimizer.accept`), translated with a
+    callback that talks to the shrinker, agrees with the model's `minimizeS`** against every shrinker and for every pair of
+    callbacks that agree: the same probes in the same order, the same result — or the translated loops run out of fuel -/
+theorem source_minimize_with_callback {σ : Type} (o : Oracle σ) {cT : UInt64 → String → Go.SM Bool} {cM : UInt64 → Script Bool}
+    (hc : CondAgree o cT cM) (fuel : Nat) (u : UInt64) (s : σ) :
+    Agree (fun (a b : UInt64) => a = b) (Rapid.SM.exec o (Rapid.Translated.minimizeS u cT fuel) s) ((minimizeS u cM).exec o s) :=
+  tr_minimizeS o hc fuel u s
+
+/-- **`minimizeBlocks` of /repo agrees with the model's pass** (the pass `no_block_can_be_lowered` and
+    `threshold_block_is_exact` are about) -/
+theorem source_minimizeBlocks {σ : Type} (o : Oracle σ) (wf : o.WF) (fuel fm : Nat) (h : fuel ≤ fm) (s : σ) :
+    Agree (fun _ _ => True) (Rapid.SM.exec o (Rapid.Translated.shrinker_minimizeBlocks fuel) s) ((minimizeBlocks fm 0).exec o s) :=
+  tr_minimizeBlocks o wf fuel fm s h
 
 end Rapid.C12
